@@ -1,7 +1,9 @@
 package main
 
 import (
+	"encoding/json"
 	"fmt"
+	"github.com/spikeekips/mitum/util/encoder"
 	"sort"
 	"strings"
 
@@ -22,6 +24,18 @@ type c03env struct {
 	point    base.Point
 	prev     util.Hash
 	facts    map[string]isaac.INITBallotFact // per expel set: built on demand
+	enc      encoder.Encoder
+	sufs     map[int]base.Suffrage // ONE suffrage object per size for all validations, as a node keeps one per height
+	c        *Ctx
+}
+
+func (e *c03env) nodeNo(a base.Address) int {
+	for i := range e.members {
+		if e.members[i].Address().Equal(a) {
+			return i + 1
+		}
+	}
+	return 0
 }
 
 func c03newEnv(n int) *c03env {
@@ -94,10 +108,31 @@ func (e *c03env) accepted(v c03vp, proposals map[string]util.Hash) (bool, string
 	for i := 0; i < v.N; i++ {
 		nodes[i] = e.members[i]
 	}
-	suf, err := isaac.NewSuffrage(nodes)
-	if err != nil {
-		return false, "suffrage: " + err.Error()
+	if e.sufs == nil {
+		e.sufs = map[int]base.Suffrage{}
 	}
+	suf, ok := e.sufs[v.N]
+	if !ok {
+		i, err := isaac.NewSuffrage(nodes)
+		if err != nil {
+			return false, "suffrage: " + err.Error()
+		}
+		suf = i
+		e.sufs[v.N] = suf
+	}
+	// validating a voteproof must leave the suffrage it is validated with as it is
+	defer func() {
+		var now []string
+		same := suf.Len() == v.N
+		for i, nd := range suf.Nodes() {
+			now = append(now, fmt.Sprint(e.nodeNo(nd.Address())))
+			same = same && i < v.N && nd.Address().Equal(e.members[i].Address())
+		}
+		if !same && e.c != nil {
+			e.c.Violation("C03:suffrage-changed-by-validation", fmt.Sprintf("after validating %s the suffrage object of %d nodes lists the nodes %v", v.line(), v.N, now), map[string]interface{}{"voteproof": v})
+			delete(e.sufs, v.N)
+		}
+	}()
 	var expels []base.SuffrageExpelOperation
 	var expelfacts []util.Hash
 	for _, x := range v.Expels {
@@ -185,7 +220,61 @@ func (e *c03env) accepted(v c03vp, proposals map[string]util.Hash) (bool, string
 	if err := isaac.IsValidVoteproofWithSuffrage(vp, suf); err != nil {
 		return false, "with suffrage: " + err.Error()
 	}
+	e.forgedMajority(v, vp, suf)
 	return true, ""
+}
+
+// the accepted voteproof with another majority object: a fact with other content (another proposal) that still carries
+// the hash of the fact the nodes signed (a decoded fact keeps the hash it came with); it must not be accepted
+func (e *c03env) forgedMajority(v c03vp, vp base.Voteproof, suf base.Suffrage) {
+	if e.c == nil || vp.Majority() == nil || e.enc == nil {
+		return
+	}
+	b, err := e.enc.Marshal(vp.Majority())
+	if err != nil {
+		return
+	}
+	var mj map[string]json.RawMessage
+	if json.Unmarshal(b, &mj) != nil || mj["proposal"] == nil {
+		return
+	}
+	mj["proposal"], _ = json.Marshal(valuehash.RandomSHA256().String())
+	fb, _ := json.Marshal(mj)
+	hinter, err := e.enc.Decode(fb)
+	if err != nil {
+		e.c.Count("forged-majority", "fact-refused-by-decoder")
+		return
+	}
+	forged, ok := hinter.(base.BallotFact)
+	if !ok || !forged.Hash().Equal(vp.Majority().Hash()) {
+		return
+	}
+	var fvp base.Voteproof
+	switch t := vp.(type) {
+	case isaac.INITVoteproof:
+		t.SetMajority(forged)
+		fvp = t
+	case isaac.INITExpelVoteproof:
+		t.SetMajority(forged)
+		fvp = t
+	case isaac.INITStuckVoteproof:
+		t.SetMajority(forged)
+		fvp = t
+	default:
+		return
+	}
+	e.c.Eval(1)
+	if err := fvp.IsValid(hNetworkID); err != nil {
+		e.c.Count("forged-majority", "refused-by-IsValid")
+		return
+	}
+	if err := isaac.IsValidVoteproofWithSuffrage(fvp, suf); err != nil {
+		e.c.Count("forged-majority", "refused-with-suffrage")
+		return
+	}
+	e.c.Count("forged-majority", "accepted")
+	e.c.Violation("C03:majority-content-not-signed", fmt.Sprintf("%s: the same voteproof with a majority object of other content (another proposal, the hash of the signed fact kept) is accepted: two accepted voteproofs of one stage point name different majority facts and no node signed both",
+		v.line()), map[string]interface{}{"voteproof": v, "forged_majority_json": string(fb)})
 }
 
 func (c *Ctx) c03gen(n int, t10s []int, t10 int) c03vp {
@@ -311,6 +400,10 @@ func runC03(c *Ctx) error {
 	t10s := []int{670, 675, 700, 750, 800, 900, 1000, 600, 510}
 	proposals := map[string]util.Hash{"X": valuehash.RandomSHA256(), "Y": valuehash.RandomSHA256()}
 	env := c03newEnv(7)
+	env.c = c
+	if x, err := c19newEnv(); err == nil {
+		env.enc = x.enc
+	}
 	type acc struct {
 		v c03vp
 	}
